@@ -337,6 +337,10 @@ def _crosscheck(driver: str, cases: list, results: list) -> None:
     with Lock():
         with open(path, "w") as f:
             f.write(text)
+        # the compiled driver must be consistent with the tables of THIS tree (another run may
+        # have regenerated Gen/Tables.v for a different tree in the meantime)
+        translate()
+        make([f"Extract/Extract{cap}.vo"])
         rc, out = _run(["coqc", "-q", "-Q", ".", "HT", path], COQ, 900)
     ok = rc == 0 and re.search(r"=\s*\(true,\s*%d" % len(idx), out.replace("\n", " ")) is not None
     CROSS["checked"] += len(idx)
